@@ -53,7 +53,8 @@ def tok_attrs(ttype, text):
         if text[:2] in ("0x", "0X"):
             fl = iv is not None
         else:
-            fl = bool(_FLOAT_RE.match(text))
+            # a float literal fits its field if it has the documented syntax and a finite value
+            fl = bool(_FLOAT_RE.match(text)) and math.isfinite(float(text))
         val = iv[0] if iv is not None and 0 <= iv[0] < 2 ** 31 else -1
         return {"fits": fits, "float": fl, "val": val}
     return {"none": 0}
@@ -121,11 +122,7 @@ def value_eq(ptype, spec_v, real_v):
         else:
             want = float(txt)
         got = dbg_num(real_v)
-        if ptype == "float":
-            try:
-                want = struct.unpack("f", struct.pack("f", want))[0]
-            except OverflowError:
-                want = math.copysign(math.inf, want)
+        # (the DSL type "float" is stored as f64, like "double")
         if isinstance(got, (int, float)):
             return float(got) == want or (math.isnan(want) and math.isnan(float(got)))
         return False
